@@ -67,6 +67,21 @@ def work(ctx, tier):
                     c["handler"] = ["sleep"]
             if sc["place"].get("sleeper") == "none":
                 sc["place"]["sleeper"] = "call"
+        if k % 5 == 4:
+            # an observability hook that fails with an ordinary exception on one of its events (breaker events included): isolated,
+            # whatever else the library does with the failure - e.g. under warnings-as-errors (a scenario flag)
+            sc["fault"] = {"kind": "hook", "hook": rng.choice(["metric", "log"]), "at": rng.choice([0, 1, 2, 3, "always"]), "exc": rng.choice(["RuntimeError", "HookBoom", "BadStrError", "TypeError"])}
+            if k % 2 == 0:
+                sc["warnings_as_errors"] = True
+            if k % 3 == 0:
+                # ... on the circuit_closed event of a probe that succeeds
+                br = sc["cfg"]["breaker"]
+                br["trip_on"] = ["TRANSIENT"]
+                br["class_thresholds"] = {}
+                br["pre"] = [["fail", "TRANSIENT"]] * br["threshold"] + [["adv", br["recovery"] + gen.G]]
+                for c in sc["calls"]:
+                    c["outcomes"] = [["ok"]] * len(c["outcomes"])
+            ctx.inc("scenarios_with_a_failing_observability_hook")
         if k % 5 == 0:
             # an interrupt (KeyboardInterrupt / SystemExit / CancelledError) arriving inside an observability hook
             sc["fault"] = {"kind": "hook", "hook": rng.choice(["metric", "log"]), "at": rng.randint(0, 6), "exc": rng.choice(["kbd", "sysexit", "cancel"])}
